@@ -830,6 +830,7 @@ def check(ctx, R):
     R.run("C19.j", rule_j, ctx)
     R.run("C19.k", rule_k, ctx)
     R.run("C19.l", rule_l, ctx)
+    R.run("C19.m", rule_m, ctx)
     if "h" in holder:
         R.run("C19.d", rule_d, ctx, holder["h"])
     return {}
@@ -846,3 +847,53 @@ if __name__ == "__main__":
     json.dump({"_comment": "wrapper -> resolved yrs API items it calls (plumbing dropped); generated from the pinned tree + fix commits, reviewed",
                "wrappers": tab}, open(TABLE, "w"), indent=0)
     print("wrote", TABLE, len(tab))
+
+
+UNDO_META_OBSERVERS = ("yffi::yundo_manager_observe_added", "yffi::yundo_manager_observe_popped")
+
+
+def rule_m(R, ctx, rid="C19.m"):
+    """The metadata a C undo observer assigns is what the stack item keeps."""
+    Y = ctx.yffi
+    R.rule(rid, "R-ORDER yundo_manager_observe_added / _popped: the closure hands the C callback a YUndoEvent built from the Rust event, "
+                "and stores into the Rust event's meta cell (Event::meta(e), AtomicPtr::store) the `meta` field of that same "
+                "YUndoEvent read AFTER the callback returned — the read's block is strictly dominated by the indirect call — so what "
+                "the callback assigns to event->meta is what observe_popped later hands back, as with the Rust API")
+    n = 0
+    for path in UNDO_META_OBSERVERS:
+        outer = Y.fn(path)
+        cl = [f for f in Y.with_closures(outer) if f.kind == "closure"]
+        if len(cl) != 1:
+            R.ob(rid, outer, "closure", False, "%d closures (expected one)" % len(cl))
+            continue
+        f = cl[0]
+        v = FnView(f)
+        cfg = f.cfg()
+        cbs = [c for c in f.calls() if c.name == "<indirect>"]
+        stores = [c for c in f.calls() if re.search(r"atomic::Atomic(Ptr)?::store$", F.strip_generics(c.name))]
+        if len(cbs) != 1 or len(stores) != 1:
+            R.ob(rid, outer, "shape", False, "%d callback calls, %d stores into the meta cell (expected one each)" % (len(cbs), len(stores)))
+            continue
+        n += 1
+        cb, stc = cbs[0], stores[0]
+        bad = []
+        ev = sshow(simp_deep(v.arg(cb, 1, 8)), 6)
+        if "YUndoEvent::new(e)" not in ev:
+            bad.append("the callback receives %s, not the YUndoEvent built from the event" % ev)
+        cell = sshow(simp_deep(v.arg(stc, 0, 8)), 6)
+        val = sshow(simp_deep(v.arg(stc, 1, 8)), 6)
+        if cell != "Event::meta(e)":
+            bad.append("the store goes to %s" % cell)
+        if val != "YUndoEvent::new(e).meta":
+            bad.append("the stored value is %s" % val)
+        reads = [(bb, st) for bb, i, st in f.stmts()
+                 if isinstance(st["rv"], dict) and "use" in st["rv"] and "yffi::YUndoEvent.meta" in str(st["rv"]["use"])]
+        if not reads:
+            bad.append("no read of YUndoEvent.meta")
+        for bb, st in reads:
+            if bb == cb.bb or not cfg.dominates(cb.bb, bb):
+                bad.append("YUndoEvent.meta is read (line %s) before the callback has run: what the callback assigns is dropped" % st.get("line"))
+        if not cfg.dominates(cb.bb, stc.bb):
+            bad.append("the store does not follow the callback")
+        R.ob(rid, outer, "meta-after-callback", not bad, "meta is read after the callback and stored into Event::meta(e)" if not bad else "; ".join(bad), stc.loc())
+    R.floor(rid, "undo observers with a metadata hand-back", n, 2)
